@@ -96,8 +96,8 @@ impl Prop for Months {
         if !(cal::MIN_DAY..=cal::MAX_DAY).contains(&c.day) || !(0..86_400_000_000_000).contains(&c.ns) || c.op > 3 || c.off.abs() > 86_399 {
             return Verdict::Skip("malformed case");
         }
-        if c.datetime && c.off != 0 && (c.day < cal::MIN_DAY + 2 || c.day > cal::MAX_DAY - 2) {
-            return Verdict::Skip("offset receiver within 2 days of a range end");
+        if c.datetime && c.off != 0 && (c.day < cal::MIN_DAY + 1 || c.day > cal::MAX_DAY - 1) {
+            return Verdict::Skip("offset receiver on an outermost day of the range");
         }
         let start = cal::ymd_from_days(c.day);
         let delta: i64 = match c.op {
